@@ -34,6 +34,8 @@ LATTICE = [(i, j) for j in range(3) for i in range(3)]
 EMB = {
     'int': lambda i, j: complex(float(i), float(j)),
     'nondyadic': lambda i, j: complex(0.1 + 0.7 * i, -0.3 + 1.1 * j),
+    # a small polygon far from the origin: distinct crossings of one probe lie within 1e-5*|point| of each other
+    'small_far': lambda i, j: complex(1000.0 + 0.004 * i, 1000.0 + 0.003 * j),
 }
 OUTSIDE = [(-3.7, -2.3), (5.1, 7.3), (-4.9, 6.1), (8.3, -1.7)]
 MARGIN = Fraction(1, 10 ** 9)
@@ -114,7 +116,7 @@ def check_polygon(idx, emb, acc, only=None):
     vq = [Q(v) for v in verts]
     p = Path(*[Line(verts[i], verts[(i + 1) % n]) for i in range(n)])
     exact = shoelace(vq)
-    scale2 = 16.0
+    scale2 = 16.0 if emb != 'small_far' else 1.0     # area tolerance 1e-12*scale2 (coordinates ~1e3: eps*|p|*size)
     base = {'what': 'polygon', 'idx': list(idx), 'emb': emb}
     shape = 'zero_area' if exact == 0 else ('ccw' if exact > 0 else 'cw')
     sig0 = {'n': n, 'shape': shape}
@@ -141,7 +143,7 @@ def check_polygon(idx, emb, acc, only=None):
         return
     edges = [(vq[i], vq[(i + 1) % n]) for i in range(n)]
     for (qi, qj) in itertools.product(range(-1, 3), repeat=2):
-        pt = E(qi + 0.5, qj + 0.5) if emb == 'int' else complex(0.1 + 0.7 * (qi + 0.5), -0.3 + 1.1 * (qj + 0.5))
+        pt = E(qi + 0.5, qj + 0.5)
         for oi, o in enumerate(OUTSIDE):
             opt = complex(*o)
             pq, oq = Q(pt), Q(opt)
@@ -264,8 +266,37 @@ def check_ellipse(rx, ry, rot, sweep, acc):
         acc.violation('area_wrong', {'n': 2, 'shape': 'ellipse'}, case, observed=r, expected=want, detail='bound %g' % bound)
 
 
+def check_rounded_rect(r, chord, sweep_dir, acc):
+    """rounded rectangle 8 x 5 with corner radius r: four quarter-circle arcs, each approximated by
+    N = ceil(arc length / chord) chords; the polygonal approximation loses at most the circular
+    segments cut off by those chords"""
+    w, h = 8.0, 5.0
+    pts = [complex(r, 0), complex(w - r, 0), complex(w, r), complex(w, h - r), complex(w - r, h), complex(r, h),
+           complex(0, h - r), complex(0, r)]
+    segs = []
+    for i in range(4):
+        a, b, c = pts[2 * i], pts[2 * i + 1], pts[(2 * i + 2) % 8]
+        segs.append(Line(a, b))
+        segs.append(Arc(b, complex(r, r), 0, 0, 1, c))
+    p = Path(*segs)
+    if not sweep_dir:
+        p = p.reversed()
+    exact = (w * h - (4 - math.pi) * r * r) * (1 if sweep_dir else -1)
+    L = math.pi * r / 2
+    N = max(1, math.ceil(L / chord))
+    phi = (math.pi / 2) / N
+    deficit = 4 * N * (r * r / 2) * (phi - math.sin(phi))
+    case = {'what': 'rounded_rect', 'r': r, 'chord': chord, 'ccw': sweep_dir}
+    acc.case(case, cls='area/arcs_N%s' % ('1' if N == 1 else ('2-4' if N <= 4 else 'many')))
+    r_ = outcome(lambda: p.area(chord_length=chord))
+    # any chord polygon with chords <= chord_length loses at most 1.5x what equal steps lose
+    if r_[0] != 'ok' or not abs(float(r_[1]) - exact) <= 1.5 * deficit + 1e-9:
+        acc.violation('area_wrong', {'n': 8, 'shape': 'rounded_rect', 'chords_per_arc': 'one' if N == 1 else 'several'}, case,
+                      observed=r_, expected=exact, detail='allowed deficit %g (N=%d chords per arc)' % (1.5 * deficit, N))
+
+
 def tier_params(tier, seed):
-    return {'k': 4 if tier == 'quick' else 5, 'embs': ['int', 'nondyadic']}
+    return {'k': 4 if tier == 'quick' else 5, 'embs': ['int', 'nondyadic', 'small_far']}
 
 
 NSH = 48
@@ -303,12 +334,16 @@ def run_shard(desc, tier, seed):
         for rx, ry, rot in ELLIPSES:
             for sw in (0, 1):
                 check_ellipse(rx, ry, rot, sw, acc)
+        for r in (0.25, 1.0, 2.0):
+            for chord in (0.01, 0.3, 0.5, 1.0, 5.0):
+                for d in (True, False):
+                    check_rounded_rect(r, chord, d, acc)
     return acc
 
 
 def expected_classes(tier):
     return ['area/ccw', 'area/cw', 'area/zero_area', 'area/curved', 'area/ellipse', 'encloses/inside', 'encloses/outside',
-            'contained/nested', 'contained/disjoint', 'contained/crossing', 'area_transform/reversed', 'area_transform/scaled_neg']
+            'contained/nested', 'contained/disjoint', 'contained/crossing', 'area/arcs_N1', 'area/arcs_Nmany', 'area_transform/reversed', 'area_transform/scaled_neg']
 
 
 def space(tier, seed):
@@ -331,6 +366,8 @@ def replay(case):
         check_containment(tuple(case['outer']), tuple(case['inner']), case['emb'], case['factor'], complex(*case['shift']), acc)
     elif w == 'curved':
         check_curved(case['name'], acc)
+    elif w == 'rounded_rect':
+        check_rounded_rect(case['r'], case['chord'], case['ccw'], acc)
     else:
         check_ellipse(case['rx'], case['ry'], case['rot'], case['sweep'], acc)
     return acc.vlist
